@@ -388,8 +388,11 @@ func runIncludeModel(log []Access, entry, rootPath string, rootData []byte) *mod
 }
 
 // safetyCheck is the model-independent per-access clause of C14.
-func safetyCheck(log []Access) (class, msg string) {
-	for _, a := range log {
+func safetyCheck(log []Access, rootPath string) (class, msg string) {
+	for i, a := range log {
+		if i == 0 && a.Op == "read" && a.Path == rootPath {
+			continue // the root path is given by the caller, in whatever spelling; the rule is about INCLUDE
+		}
 		if a.Op != "stat" && a.Op != "read" {
 			return "foreign-fs-operation", fmt.Sprintf("access #%d uses %s on %q: the builder is only known to stat and read", a.Seq, a.Op, a.Path)
 		}
